@@ -333,14 +333,12 @@ func (r *sharedResource) loop(ctx context.Context) {
 			}
 
 			// clear the partition after the lease
+			// NOTE: this outlives the context on purpose; a stopped resource must not keep counting an expired lease
 			go func(i uint32) {
-				select {
-				case <-ctx.Done():
-				case <-time.After(leaseTime):
-					r.clearPartitionId(i)
-					r.Emit(ReleasedEvent, int(index), "", nil)
-					r.calc()
-				}
+				time.Sleep(leaseTime)
+				r.clearPartitionId(i)
+				r.Emit(ReleasedEvent, int(index), "", nil)
+				r.calc()
 			}(index)
 
 			// mark the partition as allocated
